@@ -20,3 +20,33 @@ Theorem c17_partial_listener_tables_follow_filters :
               (x = h_key h /\ ca_matches (arch_has a) (h_filter h) = true) \/ In x (listeners_of a (fst ek)).
 Proof. exact register_handler_listens. Qed.
 Print Assumptions c17_partial_listener_tables_follow_filters.
+
+Require Import EV.Query EV.SlotMap EV.Store.
+
+(* the storage part of the invariant (entity locations <-> archetype rows, one value per column,
+   slot-map invariant) holds in the empty world and is preserved by row removal and by the
+   archetype move, which therefore never take an unchecked step that fails *)
+Theorem c17_partial_storage_invariant_initially :
+  forall fuel p : N, StoreInv (world0 fuel p).
+Proof. exact StoreInv_world0. Qed.
+Print Assumptions c17_partial_storage_invariant_initially.
+
+Theorem c17_partial_row_removal_keeps_storage_consistent :
+  forall (w : world) (ai row : N) (a : arch) (e : key) (vals : list cval),
+    StoreInv w -> arch_at w ai = Some a -> nget (a_rows a) row = Some (e, vals) ->
+    exists w', remove_entity w (ai, row) = ROk tt w' /\ StoreInv w' /\
+               sm_get e (w_ents w') = None /\ (forall k c, k <> e -> abs w' k c = abs w k c).
+Proof. exact remove_entity_ok. Qed.
+Print Assumptions c17_partial_row_removal_keeps_storage_consistent.
+
+Theorem c17_partial_archetype_move_keeps_storage_consistent :
+  forall (w : world) (sai srow dst : N) (sa da : arch) (e : key) (vals : list cval) (nw : option (N * cval))
+         (dvals : list cval) (killed : list (N * cval)),
+    StoreInv w -> arch_at w sai = Some sa -> arch_at w dst = Some da -> sai <> dst ->
+    nget (a_rows sa) srow = Some (e, vals) ->
+    merge_row (S (length (a_comps sa) + length (a_comps da))) (a_comps sa) vals (a_comps da) nw = Some (dvals, killed) ->
+    exists w', move_entity w (sai, srow) dst nw = ROk tt w' /\ StoreInv w' /\
+               (forall k c, k <> e -> abs w' k c = abs w k c) /\
+               (forall c, abs w' e c = row_col da dvals c).
+Proof. exact move_entity_ok. Qed.
+Print Assumptions c17_partial_archetype_move_keeps_storage_consistent.
